@@ -114,7 +114,11 @@ func (a *agg) add(c *Case, res *childResult) {
 	}
 	if its, ok := rec.Summary["iter_hashes"].([]any); ok {
 		// component simulation: one child = many iterations (bubbles)
-		a.evals += len(its) - 1
+		if n, ok := rec.Summary["iterations"].(float64); ok {
+			a.evals += int(n) - 1
+		} else {
+			a.evals += len(its) - 1
+		}
 		for _, h := range its {
 			if hs, ok := h.(string); ok {
 				a.hashes[hs] = true
